@@ -740,13 +740,6 @@ impl<'p, 's, M: Matcher, W: WriteColor> StandardSink<'p, 's, M, W> {
                 true
             },
         )?;
-        // Don't report empty matches appearing at the end of the bytes.
-        if !matches.is_empty()
-            && matches.last().unwrap().is_empty()
-            && matches.last().unwrap().start() >= range.end
-        {
-            matches.pop().unwrap();
-        }
         Ok(())
     }
 
